@@ -174,6 +174,9 @@ func UpdateWebSocketHeader(secWebSocketKey, protocol string) []byte {
 	return []byte(webSocketResponseHeaderStr)
 }
 
+// wsMaxPayloadLength 读取websocket帧时，单个帧payload的长度上限
+const wsMaxPayloadLength = 16 * 1024 * 1024
+
 func ReadWsPayload(r *bufio.Reader) ([]byte, error) {
 	var h WsHeader
 
@@ -227,6 +230,11 @@ func ReadWsPayload(r *bufio.Reader) ([]byte, error) {
 		}
 
 		h.MaskKey = bele.BeUint32(buf)
+	}
+
+	// 对端声明的长度不可信，超过上限则认为是非法数据，避免申请超大内存导致进程崩溃
+	if h.PayloadLength > wsMaxPayloadLength {
+		return nil, fmt.Errorf("payload length too large. length=%d", h.PayloadLength)
 	}
 
 	payload := make([]byte, h.PayloadLength)
